@@ -10,7 +10,7 @@ from ..seed import digest
 
 ID = "C11"
 ENVS = ["absent"]
-RUNS = {"quick": 6400, "thorough": 64000}
+RUNS = {"quick": 64000, "thorough": 640000}
 RULE = ("case = (dataset with insertion orders, valid scheme, list of pivot schedules | sweep of the whole "
         "pivot-choice tree); distinct = distinct case digest; non-trivial = at least one recursion step compared "
         "an element with a pivot (universe >= 2)")
